@@ -25,7 +25,7 @@ CONSTANTS NTests, Deviations, PreChoices
 AllOpts == {"gc", "G", "coverage", "profile", "buffer", "warnings", "D", "x"}
 
 VARIABLES Opts,        \* the option subset of this run (chosen in Init)
-          PreHooks     \* the caller had its own trace / profile function installed
+          PreHooks     \* which trace / profile functions the caller had installed
 
 Globals == {"gcThreshold", "gcDebug", "tbFormat", "tbPrint", "sysTrace",
             "thrTrace", "settraceFn", "sysProfile", "warnFilters",
@@ -41,13 +41,18 @@ Features == SelectSeq(AllFeatures, Active)
 NF == Len(Features)
 
 (* what the caller had before the run *)
+(* PreHooks: "none" | "both" (sys.settrace and threading.settrace, two         *)
+(* different functions) | "sys" (only sys.settrace, e.g. a debugger)           *)
 G0 == [x \in Globals |->
-         IF x \in {"sysTrace", "thrTrace", "sysProfile"}
-         THEN IF PreHooks THEN "init" ELSE "none"
-         ELSE "init"]
+         CASE x = "sysTrace" -> IF PreHooks = "none" THEN "none" ELSE "callerS"
+           [] x = "thrTrace" -> IF PreHooks = "both" THEN "callerT" ELSE "none"
+           [] x = "sysProfile" -> IF PreHooks = "none" THEN "none" ELSE "callerP"
+           [] OTHER -> "init"]
 
 (* endings of the test phase *)
-Endings == {"normal", "failing", "hookUp", "hookDown", "kbint", "stop", "postmortem"}
+(* "redirKbint": the last test replaces sys.stdout with an object of its own in *)
+(* setUp (to put it back in tearDown) and is interrupted before tearDown runs  *)
+Endings == {"normal", "failing", "hookUp", "hookDown", "kbint", "stop", "postmortem", "redirKbint"}
 
 VARIABLES g, saved, pc, idx, t, ending, exc, began, warnSaved
 vars == <<g, saved, pc, idx, t, ending, exc, began, warnSaved, Opts, PreHooks>>
@@ -106,7 +111,13 @@ LSetup ==
 (* ---- the test phase ------------------------------------------------------*)
 Last == t = NTests
 Arm(gg) == IF "buffer" \in Opts THEN Set(gg, {"stdout", "stderr"}, "runner") ELSE gg
-RestoreStreams(gg) == IF "buffer" \in Opts THEN Set(gg, {"stdout", "stderr"}, "init") ELSE gg
+(* _restoreStdStreams puts the saved originals back whatever sys.stdout is by  *)
+(* then ("RestoreOnlyOwnBuffer": only if sys.stdout still is the runner's     *)
+(* buffer)                                                                    *)
+RestoreStreams(gg) ==
+  IF "buffer" \notin Opts THEN gg
+  ELSE IF "RestoreOnlyOwnBuffer" \in Deviations /\ gg["stdout"] # "runner" THEN gg
+  ELSE Set(gg, {"stdout", "stderr"}, "init")
 
 TStart ==     \* TestResult.startTest: per-test layer hooks, then arm the capture
   /\ pc = "tstart"
@@ -119,8 +130,9 @@ TStart ==     \* TestResult.startTest: per-test layer hooks, then arm the captur
 TBody ==      \* the test itself; it may change warnings filters for itself
   /\ pc = "tbody"
   /\ \E fiddle \in BOOLEAN :
-       g' = IF fiddle THEN Set(g, {"warnFilters"}, "test") ELSE g
-  /\ exc' = IF ending = "kbint" /\ Last THEN "kbint" ELSE exc
+       LET g1 == IF fiddle THEN Set(g, {"warnFilters"}, "test") ELSE g
+       IN g' = IF ending = "redirKbint" /\ Last THEN Set(g1, {"stdout"}, "test") ELSE g1
+  /\ exc' = IF ending \in {"kbint", "redirKbint"} /\ Last THEN "kbint" ELSE exc
   /\ pc' = "tstop"
   /\ UNCHANGED <<saved, idx, t, ending, began, warnSaved>>
 
@@ -153,10 +165,15 @@ ETeardown ==
      THEN /\ g' = CASE Features[idx] = "Coverage" ->       \* TestTrace.stop
                          \* puts the caller's trace functions back (fix 2911f84;
                          \* before it: reset to "no trace function")
-                         Set(Set(g, {"sysTrace", "thrTrace"},
-                                 IF "CoverageResetsTrace" \in Deviations
-                                 THEN "none" ELSE G0["sysTrace"]),
-                             {"settraceFn"}, "init")
+                         \* "CoverageStopAllThreads": the threading hook is put back
+                         \* with settrace_all_threads, which also sets it in the
+                         \* calling thread, over the sys hook restored just before
+                         LET ds == "CoverageResetsTrace" \in Deviations
+                             da == "CoverageStopAllThreads" \in Deviations
+                             thr == IF ds THEN "none" ELSE G0["thrTrace"]
+                             sy == IF ds THEN "none" ELSE IF da THEN thr ELSE G0["sysTrace"]
+                         IN Set(Set(Set(g, {"sysTrace"}, sy), {"thrTrace"}, thr),
+                                {"settraceFn"}, "init")
                     [] Features[idx] = "Profiling" ->      \* profiler.disable
                          \* CPython >= 3.12: cProfile is a sys.monitoring tool and
                          \* leaves a caller's sys.setprofile hook alone; on older
@@ -205,7 +222,10 @@ Done == pc \in {"returned", "raised"}
 (* the trace / profile hooks of a caller that had some installed are checked *)
 (* as a clause of their own (signature of the repaired coverage defect)      *)
 HookGlobals == {"sysTrace", "thrTrace", "sysProfile"}
-Restored == Done /\ began => \A x \in Globals \ HookGlobals : g[x] = G0[x]
+(* (a test that leaks its own replacement of sys.stdout while the runner does  *)
+(* not manage the streams (no --buffer) has changed it itself)                 *)
+OwnLeak == IF ending = "redirKbint" /\ "buffer" \notin Opts THEN {"stdout"} ELSE {}
+Restored == Done /\ began => \A x \in Globals \ (HookGlobals \cup OwnLeak) : g[x] = G0[x]
 HooksRestored == Done /\ began => \A x \in HookGlobals : g[x] = G0[x]
 Terminates == <>Done
 
